@@ -37,6 +37,7 @@ r = subprocess.run(["git", "-C", wt, "apply", os.path.join(a.out, "patch.diff")]
 assert r.returncode == 0, "patch does not apply"
 changed = sh("git diff --stat").strip().splitlines()
 assert all("/tests/" not in l for l in changed[:-1]), "patch touches tests"
+os.makedirs(os.path.dirname(os.path.join(wt, demo_rel)), exist_ok=True)
 shutil.copy(os.path.join(a.out, "demo.rs"), os.path.join(wt, demo_rel))
 t0 = time.time()
 log = sh("cargo nextest run --workspace --no-fail-fast --test-threads 8 --offline")
